@@ -30,7 +30,10 @@ for b in blocks:
 body = [hdr.rstrip() + "\n"]
 for name, lemma in pairs:
     key = lemma
-    t = types.get(key) or types.get(key.split(".")[-1])
+    parts = key.split(".")
+    t = None
+    for i in range(len(parts)):
+        t = t or types.get(".".join(parts[i:]))
     if t is None:
         print("no type for", lemma); sys.exit(1)
     t = re.sub(r"\n\s{5,7}", "\n  ", t)
